@@ -387,6 +387,94 @@ def adopt_rules(chk):
         chk.ok(rule, adopt.qual, "adopt and MetaRunner.register_payload return nothing and reach no blocking result primitive", node=adopt.node)
 
 
+def _eager_formats(node, names):
+    """formatting expressions (f-string, "..." % x, str()/repr()/format(), "...".format()) that mention one of `names`"""
+    out = []
+    for n in ast.walk(node):
+        fmt = None
+        if isinstance(n, ast.JoinedStr) and any(isinstance(v, ast.FormattedValue) for v in n.values):
+            fmt = n
+        elif isinstance(n, ast.BinOp) and isinstance(n.op, ast.Mod) and isinstance(n.left, (ast.Constant, ast.JoinedStr)) and isinstance(getattr(n.left, "value", ""), str):
+            fmt = n
+        elif isinstance(n, ast.Call) and util.dotted(n.func) in ("str", "repr", "format", "ascii"):
+            fmt = n
+        elif isinstance(n, ast.Call) and isinstance(n.func, ast.Attribute) and n.func.attr == "format" and isinstance(n.func.value, ast.Constant):
+            fmt = n
+        if fmt is not None and any(isinstance(x, ast.Name) and x.id in names for x in ast.walk(fmt)):
+            out.append(fmt)
+    return out
+
+
+def no_eager_formatting(chk):
+    """O3.4 (formatting): adopt never formats the payload (or its bound arguments) in the caller -- a `__repr__` that
+    raises would escape from adopt and the payload would be lost; lazy logging arguments are not formatting"""
+    prog = chk.program
+    rule = "O3.4"
+    fns = [prog.method(SERVICE_RUNNER, "adopt"), prog.method(META, "register_payload")]
+    for r in util.concrete_runners(prog):
+        f = prog.lookup_method(r, "register_payload")
+        if f is not None:
+            fns.append(f)
+            # synchronous helpers the registration calls directly in the caller's thread
+            for n in ast.walk(f.node):
+                if isinstance(n, ast.Call) and isinstance(n.func, ast.Attribute) and util.dotted(n.func.value) == "self":
+                    h = prog.lookup_method(r, n.func.attr)
+                    if h is not None and not h.is_async and h not in fns and h.name not in ("register_payload",):
+                        fns.append(h)
+    n_sites = 0
+    bad = 0
+    for fi in fns:
+        a = fi.node.args
+        names = {x.arg for x in a.posonlyargs + a.args if x.arg not in ("self", "cls", "flavour")} | ({a.vararg.arg} if a.vararg else set()) | ({a.kwarg.arg} if a.kwarg else set())
+        for n in ast.walk(fi.node):
+            if isinstance(n, ast.For) and any(isinstance(x, ast.Name) and x.id in names for x in ast.walk(n.iter)):
+                names |= {x.id for x in ast.walk(n.target) if isinstance(x, ast.Name)}
+        par = util.parents_map(fi.node)
+        for fmt in _eager_formats(fi.node, names):
+            n_sites += 1
+            chk.count()
+            # on a path that ends the registration by discarding the payload (shutdown) the payload is lost anyway,
+            # but adopt must still not raise
+            in_handler = util.enclosing(par, fmt, (ast.ExceptHandler,)) is not None
+            bad += 1
+            chk.bad(
+                rule,
+                fi.qual,
+                "%s formats the payload eagerly in the caller of adopt (%s)%s: a payload or bound argument whose __repr__/__str__ raises makes adopt raise instead of returning None, and the payload is lost; pass it as a lazy logging argument instead"
+                % (fi.name, util.unparse(fmt)[:70], " -- on the discard path taken while the runtime shuts down" if in_handler else ""),
+                node=fmt,
+                stmt="eager-format %s" % util.unparse(fmt)[:60],
+            )
+    if not bad:
+        chk.ok(rule, "<registration chain>", "none of the %d functions on the registration chain formats the payload eagerly" % len(fns), node=fns[0].node)
+
+
+def weak_registry(chk):
+    """O3.9: service units are held weakly by the registry: a unit that was superseded (an instance of a @service class
+    derived from another @service class gets one unit per decorator) disappears instead of being started as well"""
+    prog = chk.program
+    rule = "O3.9"
+    cls = prog.cls(SERVICE_UNIT)
+    units = prog.pick(cls.methods.get("units", []))
+    reg = None
+    if units is not None:
+        for n in ast.walk(units.node):
+            if isinstance(n, ast.Attribute) and isinstance(n.value, ast.Name) and n.value.id in ("cls", "self", cls.name) and n.attr in cls.class_attrs:
+                reg = n.attr
+    if reg is None:
+        chk.undecided(rule, cls.qual, "the class-level registry read by units() was not found", node=cls.node)
+        return
+    v = cls.class_attrs[reg]
+    chk.count()
+    r = prog.resolve(cls.module, v.func) if isinstance(v, ast.Call) else None
+    if r == "ext:weakref.WeakSet":
+        chk.ok(rule, cls.qual, "the unit registry %s is a weakref.WeakSet" % reg, node=v)
+    elif r in ("ext:builtins.set", "ext:builtins.list", "ext:builtins.dict") or isinstance(v, (ast.Set, ast.List, ast.Dict)):
+        chk.bad(rule, cls.qual, "the unit registry %s holds the units strongly (%s): a superseded unit of a live service (one unit per @service decorator in the class hierarchy) stays defined and the service's run method is started once per unit" % (reg, util.unparse(v)), node=v, stmt="registry-strong")
+    else:
+        chk.undecided(rule, cls.qual, "the unit registry is %s" % util.unparse(v), node=v)
+
+
 def service_typestate(chk):
     prog = chk.program
     rule = "O3.6"
@@ -672,5 +760,7 @@ def run(chk):
     chk.guard("O3.1", META, meta_register, chk)
     chk.guard("O3.1", "<runners>", runner_forwards, chk)
     chk.guard("O3.3", SERVICE_RUNNER + ".adopt", adopt_rules, chk)
+    chk.guard("O3.4", "<registration chain>", no_eager_formatting, chk)
+    chk.guard("O3.9", SERVICE_UNIT, weak_registry, chk)
     chk.guard("O3.6", SERVICE_UNIT, service_typestate, chk)
     chk.guard("O3.7", SERVICE_RUNNER, sweep_rules, chk)
